@@ -1,13 +1,15 @@
 //! Boundary-value ("scale") modules: well-formed, loadable modules that sit on count / size / value
 //! thresholds which random generation practically never reaches: hundreds of parameters or distinct
 //! types, many extended-instruction imports, instructions of the maximum word count, 64 KiB strings,
-//! realistic non-semantic imports, storage-class pairs, literal consumers in a second function.
+//! realistic non-semantic imports, storage-class pairs, literal consumers in a second function; and two
+//! families of realistic idioms: imported / exported function declarations with linkage decorations, and
+//! line-debug info with repeated identical instructions.
 
 use crate::gram::{db, AInst, AOp, AVal, K};
 use crate::model::{NumTy, TypeModel, Width};
 use crate::util::Rng;
 
-pub const N_VARIANTS: u64 = 9;
+pub const N_VARIANTS: u64 = 11;
 
 pub const IMPORT_NAMES: &[&str] = &[
     "GLSL.std.450",
@@ -274,6 +276,122 @@ pub fn scale_module(rng: &mut Rng, variant: u64) -> (String, Vec<AInst>) {
             v.push(AInst::named("Switch", None, None, ops));
             v.push(AInst::named("FunctionEnd", None, None, vec![]));
             ("switch in a later function on a module-scope value".to_string(), v)
+        }
+        9 => {
+            // linkage: declarations (functions without a body) and definitions in any arrangement, some of
+            // them decorated Import / Export / LinkOnceODR by name; also decorations of the same kind on
+            // non-function ids, on definitions, and functions without any decoration
+            let nf = rng.range(1, 7);
+            let fids: Vec<u32> = (0..nf).map(|_| 1000 + rng.below(40) as u32 * 3).collect::<std::collections::BTreeSet<_>>().into_iter().collect();
+            let mut order = fids.clone();
+            rng.shuffle(&mut order);
+            let has_body: Vec<bool> = order.iter().map(|_| rng.chance(1, 2)).collect();
+            let mut m: Vec<AInst> = vec![];
+            if rng.chance(3, 4) {
+                m.push(AInst::named("Capability", None, None, vec![AOp::w(K::Capability, 5)]));
+            }
+            m.push(AInst::named("MemoryModel", None, None, vec![AOp::w(K::AddressingModel, 0), AOp::w(K::MemoryModel, 1)]));
+            for f in &order {
+                if rng.chance(1, 3) {
+                    m.push(AInst::named("Name", None, None, vec![AOp::id(*f), AOp::s(&format!("fn{}", f))]));
+                }
+            }
+            let mut n_imp = 0;
+            for (i, f) in order.iter().enumerate() {
+                let target = if rng.chance(1, 8) { void } else { *f };
+                let lt = match rng.below(8) {
+                    0 => 0,
+                    1 => 2,
+                    2 => {
+                        continue;
+                    }
+                    _ => {
+                        if has_body[i] && rng.chance(3, 4) {
+                            0
+                        } else {
+                            1
+                        }
+                    }
+                };
+                n_imp += (lt == 1) as usize;
+                m.push(AInst::named("Decorate", None, None, vec![AOp::id(target), AOp::w(K::Decoration, 41), AOp::s(&format!("fn{}", f)), AOp::w(K::LinkageType, lt)]));
+                if rng.chance(1, 6) {
+                    m.push(AInst::named("Decorate", None, None, vec![AOp::id(target), AOp::w(K::Decoration, 0)]));
+                }
+            }
+            m.push(AInst::named("TypeVoid", None, Some(void), vec![]));
+            m.push(AInst::named("TypeFunction", None, Some(fnty), vec![AOp::id(void)]));
+            for (i, f) in order.iter().enumerate() {
+                m.push(AInst::named("Function", Some(void), Some(*f), vec![AOp::w(K::FunctionControl, 0), AOp::id(fnty)]));
+                if has_body[i] {
+                    m.push(AInst::named("Label", None, Some(*f + 1), vec![]));
+                    m.push(AInst::named("Return", None, None, vec![]));
+                }
+                m.push(AInst::named("FunctionEnd", None, None, vec![]));
+            }
+            (format!("{} functions ({} with a body, {} import decorations) in arrangement {:?}", order.len(), has_body.iter().filter(|b| **b).count(), n_imp, has_body), m)
+        }
+        10 => {
+            // line-debug info and repeated identical instructions: the same OpLine before several
+            // instructions, OpNoLine, duplicates in the global sections
+            let mut m: Vec<AInst> = vec![];
+            for _ in 0..rng.range(1, 3) {
+                m.push(AInst::named("Capability", None, None, vec![AOp::w(K::Capability, 1)]));
+            }
+            for _ in 0..rng.below(3) {
+                m.push(AInst::named("Extension", None, None, vec![AOp::s("SPV_KHR_non_semantic_info")]));
+            }
+            m.push(AInst::named("MemoryModel", None, None, vec![AOp::w(K::AddressingModel, 0), AOp::w(K::MemoryModel, 1)]));
+            let file = fresh();
+            m.push(AInst::named("String", None, Some(file), vec![AOp::s("shader.frag")]));
+            let file2 = fresh();
+            m.push(AInst::named("String", None, Some(file2), vec![AOp::s("shader.frag")]));
+            for _ in 0..rng.below(4) {
+                m.push(AInst::named("Name", None, None, vec![AOp::id(void), AOp::s("main")]));
+            }
+            for _ in 0..rng.below(4) {
+                m.push(AInst::named("Decorate", None, None, vec![AOp::id(void), AOp::w(K::Decoration, 0)]));
+            }
+            let line = |rng: &mut Rng| {
+                let f = if rng.chance(1, 5) { file2 } else { file };
+                if rng.chance(1, 6) {
+                    AInst::named("NoLine", None, None, vec![])
+                } else {
+                    AInst::named("Line", None, None, vec![AOp::id(f), lit(1 + rng.below(2) as u32), lit(rng.below(2) as u32)])
+                }
+            };
+            if rng.chance(1, 2) {
+                m.push(line(rng));
+            }
+            m.push(AInst::named("TypeVoid", None, Some(void), vec![]));
+            if rng.chance(1, 2) {
+                m.push(line(rng));
+            }
+            m.push(AInst::named("TypeFunction", None, Some(fnty), vec![AOp::id(void)]));
+            let mut n_line = 0;
+            for _ in 0..rng.range(1, 3) {
+                let f = fresh();
+                m.push(AInst::named("Function", Some(void), Some(f), vec![AOp::w(K::FunctionControl, 0), AOp::id(fnty)]));
+                for _ in 0..rng.range(1, 3) {
+                    let l = fresh();
+                    m.push(AInst::named("Label", None, Some(l), vec![]));
+                    for _ in 0..rng.below(7) {
+                        if rng.chance(2, 3) {
+                            m.push(line(rng));
+                            n_line += 1;
+                        }
+                        if rng.chance(2, 3) {
+                            m.push(AInst::named("Nop", None, None, vec![]));
+                        }
+                    }
+                    if rng.chance(1, 2) {
+                        m.push(line(rng));
+                    }
+                    m.push(AInst::named("Return", None, None, vec![]));
+                }
+                m.push(AInst::named("FunctionEnd", None, None, vec![]));
+            }
+            (format!("line-debug info ({} OpLine/OpNoLine inside blocks) with repeated identical instructions", n_line), m)
         }
         _ => {
             // many functions / many blocks / many instructions in one block
